@@ -1,6 +1,7 @@
 //! vx-sim: engines A/B/C/F — scenarios driven through a real `turmoil::Sim`.
 
 mod c02;
+mod c09;
 mod flow;
 mod kit;
 
@@ -63,6 +64,13 @@ fn main() {
             run_dfs(&mut rep, "latency-window", 0, wall, move |ch| flow::c14_scenario(ch, thorough));
             rep.finish();
         }
+        "C09" => {
+            let mut rep = Report::new("C09", tier, "model_checking", "sim");
+            rep.rule = "stateless enumeration: socket presets (wildcard / localhost / joined / connected / other port) on four sockets of three hosts x dynamic operations (leave, drop, join, set_broadcast, re-bind, connect) x probe sweep (unicast, own address, 127.0.0.1, other port, broadcast, multicast; IPv4 and IPv6) with every socket drained after each probe; plus udp_capacity x burst x readable-first".into();
+            run_dfs(&mut rep, "udp-routing", 0, wall, move |ch| c09::scenario(ch, thorough));
+            run_dfs(&mut rep, "udp-capacity", 0, wall, c09::capacity_scenario);
+            rep.finish();
+        }
         other => vx_core::machinery_error(&format!("vx-sim does not serve {other}")),
     }
 }
@@ -80,6 +88,13 @@ fn replay(path: &str) {
         "C08" => flow::c08_scenario(&mut ch, thorough),
         "C03" => flow::c03_scenario(&mut ch, thorough),
         "C14" => flow::c14_scenario(&mut ch, thorough),
+        "C09" => {
+            if v["scenario"].as_str().map(|s| s.starts_with("c09")).unwrap_or(false) {
+                c09::scenario(&mut ch, thorough)
+            } else {
+                c09::capacity_scenario(&mut ch)
+            }
+        }
         _ => vx_core::machinery_error("unknown property in replay file"),
     };
     for l in ch.describe() {
